@@ -27,7 +27,7 @@ Ltac dom H :=
   | (if ?c then _ else _) = _ => let D := fresh "D" in destruct c eqn:D; [|discriminate]
   | _ => idtac
   end;
-  inversion H; subst; clear H.
+  injection H as <- <- <-.
 
 Lemma starts_with_ch_refines s ch :
   Inv L s -> starts_with_ch s ch = Ok (prefixb [ch] (abs s)).
@@ -36,8 +36,8 @@ Proof.
   destruct (N.ltb_spec 0 (len s)).
   - rewrite rd_ok by lia. cbn [bind]. f_equal.
     destruct (buf s) as [|y r] eqn:Eb; [unfold nlen in Hb; cbn in Hb; lia|].
-    cbn [take nthN prefixb]. destruct (N.eqb_spec (len s) 0); [lia|].
-    cbn [prefixb]. rewrite andb_true_r. rewrite N.eqb_sym. destruct (ch =? y); reflexivity.
+    cbn [take prefixb]. destruct (N.eqb_spec (len s) 0); [lia|].
+    cbn [prefixb]. rewrite andb_true_r. rewrite nthN_cons. cbn. apply N.eqb_sym.
   - replace (len s) with 0 by lia. rewrite take_0. reflexivity.
 Qed.
 
